@@ -117,6 +117,239 @@ fn judge(out: &mut Out, label: &str, trace: &[String]) {
     out.r(&format!("timeouts.law {}", label), ok, &format!("{} | {}", why, to_model_events(trace)));
 }
 
+
+/// what the server puts into a timed search's channel
+#[derive(Clone, Copy, Debug, PartialEq)]
+pub enum Elem {
+    Item,
+    Done,
+    Closed,
+}
+
+/// A whole-stream timing script for the real `SearchStream`: elements with absolute arrival times
+/// (virtual ms), the times at which the caller asks for `next()` (requests queue up: a call starts
+/// when it is requested AND the previous one has returned), the order of (send, clock) at each arrival.
+pub struct TStream {
+    pub tmo: Option<u64>,
+    /// true: the frame is handed to the transport before the clock reaches the arrival instant, so the
+    /// driver routes it in the same instant before the timer is looked at; false: clock first, then the frame
+    pub send_first: bool,
+    pub t0: u64,
+    pub elems: Vec<(u64, Elem)>,
+    pub next_reqs: Vec<u64>,
+}
+
+impl TStream {
+    /// the steps: the clock is moved from probe instant to probe instant (every event time e and
+    /// e+1, e+T-1, e+T, e+T+1; every single ms when T <= 10) with a settle at each, so that the
+    /// virtual time at which a call returns can be read off the trace without assuming any deadline
+    pub fn steps(&self) -> (Vec<Step>, usize) {
+        let tx = self.tmo.unwrap_or(10);
+        let mut ev: Vec<u64> = vec![self.t0];
+        ev.extend(self.elems.iter().map(|e| e.0));
+        ev.extend(self.next_reqs.iter().copied());
+        let last = *ev.iter().max().unwrap();
+        let horizon = last + 3 * tx + 2;
+        let mut inst: std::collections::BTreeSet<u64> = Default::default();
+        for e in &ev {
+            for x in [*e, e + 1, e + tx - 1, e + tx, e + tx + 1] {
+                inst.insert(x);
+            }
+        }
+        if tx <= 10 {
+            for x in 0..=horizon {
+                inst.insert(x);
+            }
+        }
+        inst.insert(horizon);
+        let mut sc = vec![Step::Issue { kind: OpKind::Search, tmo_ms: self.tmo }, Step::Settle];
+        let mut cur = 0u64;
+        let mut n_next = 0usize;
+        for x in inst {
+            let sends: Vec<Step> = self
+                .elems
+                .iter()
+                .filter(|e| e.0 == x)
+                .map(|e| match e.1 {
+                    Elem::Item => Step::Send { id: 1, op: 4, good: false },
+                    Elem::Done => Step::Send { id: 1, op: 5, good: true },
+                    Elem::Closed => Step::Close,
+                })
+                .collect();
+            if self.send_first {
+                sc.extend(sends);
+                if x > cur {
+                    sc.push(Step::Tick(x - cur));
+                }
+            } else {
+                if x > cur {
+                    sc.push(Step::Tick(x - cur));
+                }
+                sc.extend(sends);
+            }
+            sc.push(Step::Settle);
+            cur = x;
+            let mut asked = false;
+            if x == self.t0 {
+                sc.push(Step::Next(0));
+                n_next += 1;
+                asked = true;
+            }
+            for _ in self.next_reqs.iter().filter(|r| **r == x) {
+                sc.push(Step::Next(0));
+                n_next += 1;
+                asked = true;
+            }
+            if asked {
+                sc.push(Step::Settle);
+            }
+        }
+        (sc, n_next)
+    }
+}
+
+/// what the real stream did, read off the trace: (outcome, virtual time of return, deadline word) of every
+/// returned next() of op 0 (at most `n_next`: the runner's own closing next() is not the script's), and the tokens sent
+pub fn tstream_observed(trace: &[String], n_next: usize) -> (Vec<(String, u64, String)>, Vec<String>) {
+    let mut now = 0u64;
+    let mut rets = vec![];
+    let mut toks = vec![];
+    for t in trace {
+        let w: Vec<&str> = t.split(' ').collect();
+        match (w[0], w.get(1).copied().unwrap_or("")) {
+            ("tick", _) => now += w[1].parse::<u64>().unwrap_or(0),
+            ("srv", "send") => toks.push(w[4].to_string()),
+            ("cli", "next") if w[2] == "0" && rets.len() < n_next => {
+                let txt = if let Some(k) = w[4].strip_prefix("item:entry:") {
+                    format!("item:{}", k)
+                } else if let Some(k) = w[4].strip_prefix("item:done:") {
+                    format!("done:{}", k)
+                } else {
+                    w[4].to_string()
+                };
+                rets.push((txt, now, w[3].to_string()));
+            }
+            _ => {}
+        }
+    }
+    (rets, toks)
+}
+
+/// run one whole-stream timing script on the real code; M line against the timed stream model, R oracles
+fn tstream_case(out: &mut Out, ts: &TStream, eager: bool, with_conn_model: bool) {
+    let (sc, n_next) = ts.steps();
+    let o = run_script(&sc);
+    let (rets, toks) = tstream_observed(&o.trace, n_next);
+    // the channel as the model sees it: arrival times from the script, tokens from the trace
+    let mut ti = 0;
+    let chan: Vec<String> = ts
+        .elems
+        .iter()
+        .map(|(a, k)| match k {
+            Elem::Closed => format!("{}:c", a),
+            Elem::Item | Elem::Done => {
+                let tok = toks.get(ti).cloned().unwrap_or_else(|| String::from("0"));
+                ti += 1;
+                format!("{}:{}{}", a, if *k == Elem::Item { "i" } else { "d" }, tok)
+            }
+        })
+        .collect();
+    // start of every call = its deadline - T (the runner logs start + T); think time = next start - this return
+    let mut t0 = ts.t0;
+    let mut think: Vec<u64> = vec![];
+    let mut starts_ok = true;
+    let mut starts: Vec<u64> = vec![];
+    if let Some(t) = ts.tmo {
+        for (k, r) in rets.iter().enumerate() {
+            match r.2.parse::<u64>() {
+                Ok(dl) if dl >= t => {
+                    let start = dl - t;
+                    starts.push(start);
+                    if k == 0 {
+                        t0 = start;
+                    } else if start >= rets[k - 1].1 {
+                        think.push(start - rets[k - 1].1);
+                    } else {
+                        starts_ok = false;
+                    }
+                }
+                _ => starts_ok = false,
+            }
+        }
+    }
+    while think.last() == Some(&0) {
+        think.pop();
+    }
+    let mut got: Vec<String> = rets.iter().map(|r| format!("{}@{}", r.0, r.1)).collect();
+    let terminal = rets.last().map(|r| !r.0.starts_with("item:")).unwrap_or(false);
+    if !terminal && rets.len() < n_next {
+        // a call that was started and never returned
+        got.push(format!("hang@{}", rets.last().map(|r| r.1 + think.get(rets.len() - 1).copied().unwrap_or(0)).unwrap_or(t0)));
+    }
+    let req = format!(
+        "tstream.run {} {} {} {}{}",
+        match ts.tmo { Some(t) => t.to_string(), None => String::from("-") },
+        if ts.send_first { "i" } else { "t" },
+        t0,
+        if chan.is_empty() { String::from("-") } else { chan.join(",") },
+        if think.is_empty() { String::new() } else { format!(" {}", think.iter().map(|x| x.to_string()).collect::<Vec<_>>().join(",")) }
+    );
+    out.case(&req, true);
+    out.stat(&format!("tstream.T={}", match ts.tmo { Some(t) => t.to_string(), None => String::from("none") }));
+    out.stat(if eager { "tstream.caller=eager" } else { "tstream.caller=lazy" });
+    out.stat(if ts.send_first { "tstream.order=send-first" } else { "tstream.order=clock-first" });
+    out.stat(&format!("tstream.items={}", ts.elems.len()));
+    out.m(&req, &got.join(";"));
+    if with_conn_model {
+        out.m(&format!("conn.trace {}", to_model_events(&o.trace)), "accept");
+    }
+    let detail = format!("{} -> {}", req, got.join(";"));
+    // every call started when the previous one had returned (or later)
+    out.r("timeouts.search-calls-in-sequence", starts_ok && (!eager || (t0 == ts.t0 && think.is_empty())), &detail);
+    // a time-out is returned at exactly the deadline of ITS call, anything else not after it
+    let mut at_deadline = true;
+    for r in &rets {
+        if let Ok(dl) = r.2.parse::<u64>() {
+            if (r.0 == "timeout" && r.1 != dl) || (r.0 != "timeout" && r.1 > dl) {
+                at_deadline = false;
+            }
+        } else if r.0 == "timeout" {
+            at_deadline = false;
+        }
+    }
+    out.r("timeouts.search-timeout-at-its-calls-deadline", at_deadline, &detail);
+    // the restart law judged from the gaps alone (caller calls back at once): all elements are delivered
+    // in order if every gap is below T, not all if some gap exceeds T (a gap of exactly T may go either way);
+    // the number delivered is the number of elements before the first gap >= T or the first gap > T
+    if eager {
+        let mut gaps = vec![];
+        let mut prev = ts.t0;
+        for e in &ts.elems {
+            gaps.push(e.0 - prev);
+            prev = e.0;
+        }
+        let delivered = rets.iter().filter(|r| r.0 != "timeout").count();
+        let in_order = rets.iter().filter(|r| r.0 != "timeout").zip(chan.iter()).all(|(r, c)| {
+            let kind = c.split(':').nth(1).unwrap_or("");
+            let expect = if kind == "c" { String::from("closed") } else if let Some(k) = kind.strip_prefix('i') { format!("item:{}", k) } else { format!("done:{}", &kind[1..]) };
+            r.0 == expect
+        });
+        let good = match ts.tmo {
+            None => delivered == ts.elems.len() && in_order && !rets.iter().any(|r| r.0 == "timeout"),
+            Some(t) => {
+                let all_below = gaps.iter().all(|g| *g < t);
+                let some_above = gaps.iter().any(|g| *g > t);
+                let first_ge = gaps.iter().position(|g| *g >= t).unwrap_or(gaps.len());
+                let first_gt = gaps.iter().position(|g| *g > t).unwrap_or(gaps.len());
+                let all_delivered = delivered == ts.elems.len() && !rets.iter().take(ts.elems.len()).any(|r| r.0 == "timeout");
+                let iff_ok = if all_below { all_delivered } else if some_above { !all_delivered } else { true };
+                in_order && (delivered == first_ge || delivered == first_gt) && iff_ok
+            }
+        };
+        out.r("timeouts.search-timer-restarts-general", good, &format!("gaps {:?} | {}", gaps, detail));
+    }
+}
+
 pub fn run(thorough: bool, mut rng: Rng, mut out: Out) {
     let n15 = if thorough { 1000 } else { 30 };
     for k in 0..n15 {
@@ -272,6 +505,67 @@ pub fn run(thorough: bool, mut rng: Rng, mut out: Out) {
             out.r(&format!("timeouts.search-leaves-nothing {}", label), clean, &d);
         }
     }
+    // the same over whole streams, compared call by call with the timed stream model (`tstream.run`):
+    // 1..6 elements, gaps from {1, T-1, T, T+1, 3T}, both orders of (frame, clock) at every arrival.
+    // A generator of its own (derived from the lane's, which is left as it was for the blocks below).
+    let mut trng = Rng(rng.0 ^ 0x7473_7472_6561_6d31);
+    let gaps_of = |t: u64| [1, t - 1, t, t + 1, 3 * t];
+    // exhaustive: T = 10, up to 3 items, every gap sequence, both orders, caller calls back at once
+    for n in 1..=3usize {
+        let g = gaps_of(10);
+        for code in 0..5usize.pow(n as u32) {
+            for send_first in [true, false] {
+                let mut c = code;
+                let mut at = 0u64;
+                let mut elems = vec![];
+                for _ in 0..n {
+                    at += g[c % 5];
+                    c /= 5;
+                    elems.push((at, Elem::Item));
+                }
+                let ts = TStream { tmo: Some(10), send_first, t0: 0, elems, next_reqs: vec![0; n] };
+                tstream_case(&mut out, &ts, true, n == 3 && code % 7 == 0);
+            }
+        }
+    }
+    let nts = if thorough { 12000 } else { 400 };
+    for k in 0..nts {
+        let tmo = match trng.below(6) {
+            0 => None,
+            1 | 2 => Some(1000u64),
+            _ => Some(10u64),
+        };
+        let tx = tmo.unwrap_or(10);
+        let g = gaps_of(tx);
+        let n = trng.range(1, 6) as usize;
+        let t0 = *trng.pick(&[0u64, 0, 3, tx + 2]);
+        let send_first = trng.chance(1, 2);
+        let mut at = t0;
+        let mut elems = vec![];
+        for i in 0..n {
+            // mostly gaps below T so that long streams occur; the last element may be the result or the loss of the sender
+            let gap = if trng.chance(1, 2) { *trng.pick(&[1, tx - 1, tx - 1]) } else { *trng.pick(&g) };
+            at += gap;
+            let kind = if i + 1 == n { *trng.pick(&[Elem::Item, Elem::Item, Elem::Done, Elem::Closed]) } else { Elem::Item };
+            elems.push((at, kind));
+        }
+        let eager = tmo.is_none() || trng.chance(2, 3);
+        let mut next_reqs = vec![];
+        if eager {
+            next_reqs = vec![t0; n];
+        } else {
+            // a slow caller: the call after element k is asked for some time after k arrived
+            for e in &elems {
+                next_reqs.push(e.0 + *trng.pick(&[0, 1, tx / 2, tx - 1, tx, tx + 1]));
+            }
+            let last = next_reqs.iter().copied().max().unwrap_or(t0).max(at) + 1;
+            for _ in 0..=n {
+                next_reqs.push(last);
+            }
+        }
+        let ts = TStream { tmo, send_first, t0, elems, next_reqs };
+        tstream_case(&mut out, &ts, eager, k % 10 == 0);
+    }
     // random mixes of timed and untimed operations
     let n = if thorough { 80000 } else { 1500 };
     for k in 0..n {
@@ -283,5 +577,5 @@ pub fn run(thorough: bool, mut rng: Rng, mut out: Out) {
         out.m(&format!("conn.trace {}", ev), "accept");
         judge(&mut out, &format!("random#{}", k), &o.trace);
     }
-    out.finish("paused-clock scripts: timeouts T in {1ms,10ms,1s,1h} x reply arrival {T-1, T with either order of send/advance, T+1, never} x 0..2 untimed companions; timed searches with item gaps T-1, T, T+1; random mixes of timed/untimed operations incl. stalled writes; the F15 witness; non-trivial = all; distinct by label/trace");
+    out.finish("paused-clock scripts: timeouts T in {1ms,10ms,1s,1h} x reply arrival {T-1, T with either order of send/advance, T+1, never} x 0..2 untimed companions; timed searches with item gaps T-1, T, T+1; whole timed streams (1..6 elements, gaps from {1,T-1,T,T+1,3T}, T in {10ms,1s,none}, both orders of frame/clock at every arrival, prompt and slow callers; exhaustive for T=10 up to 3 items) compared call by call with the timed stream model; random mixes of timed/untimed operations incl. stalled writes; the F15 witness; non-trivial = all; distinct by label/trace");
 }
